@@ -380,6 +380,12 @@ fn build_dyn(ctx: &Ctx, cons: &ckb_chain_spec::consensus::Consensus, a_len: usiz
     Ok(out)
 }
 
+/// (A incl. the common block 1, B) of the dynamic-difficulty universe
+pub fn dyn_branches(ctx: &Ctx, cons: &ckb_chain_spec::consensus::Consensus, a_len: usize, b_len: usize) -> Result<(Vec<BlockView>, Vec<BlockView>), String> {
+    let u = build_dyn(ctx, cons, a_len, b_len)?;
+    Ok((u.a, u.b))
+}
+
 fn orders(na: usize, nb: usize) -> Vec<Vec<bool>> {
     fn rec(i: usize, j: usize, na: usize, nb: usize, cur: &mut Vec<bool>, out: &mut Vec<Vec<bool>>) {
         if i == na && j == nb {
